@@ -27,6 +27,8 @@ type recDriver struct {
 	mu    sync.Mutex
 	stmts []string
 	rows  [][]driver.Value
+	// refuse: the database rejects the statement ("prepare": when it is prepared, "run": when it is executed or queried)
+	refuse string
 }
 
 var theRec = &recDriver{}
@@ -35,7 +37,12 @@ func (d *recDriver) Open(name string) (driver.Conn, error) { return &recConn{d},
 
 type recConn struct{ d *recDriver }
 
-func (c *recConn) Prepare(q string) (driver.Stmt, error) { return &recStmt{c.d, q}, nil }
+func (c *recConn) Prepare(q string) (driver.Stmt, error) {
+	if c.d.refuse == "prepare" {
+		return nil, fmt.Errorf("verif: statement refused by the database")
+	}
+	return &recStmt{c.d, q}, nil
+}
 func (c *recConn) Close() error                        { return nil }
 func (c *recConn) Begin() (driver.Tx, error)           { return nil, fmt.Errorf("no tx") }
 
@@ -57,10 +64,16 @@ func (s *recStmt) record(args []driver.Value) {
 }
 func (s *recStmt) Exec(args []driver.Value) (driver.Result, error) {
 	s.record(args)
+	if s.d.refuse == "run" {
+		return nil, fmt.Errorf("verif: statement refused by the database")
+	}
 	return driver.RowsAffected(1), nil
 }
 func (s *recStmt) Query(args []driver.Value) (driver.Rows, error) {
 	s.record(args)
+	if s.d.refuse == "run" {
+		return nil, fmt.Errorf("verif: statement refused by the database")
+	}
 	return &recRows{rows: s.d.rows}, nil
 }
 
@@ -111,6 +124,7 @@ type dbmReq struct {
 	Start   string      `json:"start"`
 	End     string      `json:"end"`
 	Rows    [][3]string `json:"rows"`
+	Refuse  string      `json:"refuse"`
 }
 type dbmStmt struct {
 	Q    string   `json:"q"`
@@ -230,11 +244,18 @@ func init() {
 			conn = postgres.NewVerifDBConn(db)
 		}
 		theRec.stmts = nil
+		theRec.refuse = ""
+		if rng.Intn(6) == 0 {
+			theRec.refuse = pick(rng, []string{"prepare", "run"})
+		}
 		trial := pick(rng, c19Strings)
 		tags := []string{dialect}
 		var op string
 		var run func() (string, error)
-		hreq := dbmReq{Dialect: dialect, Trial: trial}
+		hreq := dbmReq{Dialect: dialect, Trial: trial, Refuse: theRec.refuse}
+		if theRec.refuse != "" {
+			tags = append(tags, "database-refuses-at-"+theRec.refuse)
+		}
 		switch rng.Intn(3) {
 		case 0: // report
 			var ol *api.ObservationLog
@@ -331,6 +352,16 @@ func init() {
 			run = func() (string, error) { return "", conn.DeleteObservationLog(trial) }
 		}
 		op = strings.Join(strings.Fields(op), " ")
+		if theRec.refuse != "" {
+			op = "C19 refused " + theRec.refuse + strings.TrimPrefix(op, "C19")
+		}
+		// with a refusing database only "an error, no crash" is compared (how far the statement got is the driver's business)
+		canon := func(x string) string {
+			if theRec.refuse != "" && strings.HasPrefix(x, "err") {
+				return "err"
+			}
+			return x
+		}
 		var impl string
 		func() {
 			defer func() {
@@ -351,10 +382,10 @@ func init() {
 			}
 			impl = "ok " + strings.Join(theRec.stmts, " ; ") + extra
 		}()
-		impl = strings.Join(strings.Fields(impl), " ")
+		impl = canon(strings.Join(strings.Fields(impl), " "))
 		// the same request through the DB manager's own gRPC handler (cmd/db-manager/v1beta1/main.go): its answer is what
 		// is compared with the model; a difference from the back end's own answer is tagged
-		if h := strings.Join(strings.Fields(dbmCall(hreq)), " "); h != "" {
+		if h := canon(strings.Join(strings.Fields(dbmCall(hreq)), " ")); h != "" {
 			tags = append(tags, "via-db-manager-handler")
 			if h != impl {
 				tags = append(tags, "handler-differs-from-backend")
